@@ -17,7 +17,9 @@ RULE = ("run: real multi-threaded Bencher runs (threads T in {2,3,4,8}, sample_c
         "slow thread sleeping 1-2 ms in its generator / call / drops. The global event log (sequence numbers) is "
         "replayed through the extracted `step` (every event must be the thread's next program action and barrier "
         "leaves must be enabled), the extracted `log_sb` checks the phase order on the observed global order and the "
-        "per-sample allocation info must equal `own_allocs`. panic: T in {2,3}, a panic injected at every "
+        "recorded allocation info (sample index -> tally) must equal the extracted `records` (index r*T+t holds thread "
+        "t's own tally of round r, no entry for an empty tally); allocation masks make any subset of the threads "
+        "allocate in its timed section (only the last thread, all but thread 0, none, random, different per round). panic: T in {2,3}, a panic injected at every "
         "(thread, phase in {first/last generator call, first/last benchmarked call, first output drop, first input "
         "drop}) in round 0 or 1, plus two-thread and all-thread panics, each under a watchdog (outcome `hang`). "
         "Non-trivial = the model accepted the whole log and the run had >= 2 threads; distinct by case line. "
@@ -44,12 +46,28 @@ CONSTS_USED = ['barrier_wait_count']
 SHAPES = [("00", "z"), ("00", "v"), ("10", "z"), ("10", "v"), ("01", "z"), ("01", "r"), ("11", "z"), ("11", "r")]
 
 
-def case_line(T, S, n, sh, path, seed, jit, slow=0, skipext=0, fault="none", hang_ms=4000, test=0):
+def case_line(T, S, n, sh, path, seed, jit, slow=0, skipext=0, fault="none", hang_ms=4000, test=0, mask=""):
     R = (S + T - 1) // T
     if test:  # Action::Test: one round, one call per thread, whatever the options say
         R, n = 1, 1
     return (f"T={T} S={S} R={R} n={n} sh={sh} path={path} seed={seed} jit={jit} slow={slow} "
-            f"skipext={skipext} hang_ms={hang_ms} test={test} fault={fault}")
+            f"skipext={skipext} hang_ms={hang_ms} test={test}" + (f" mask={mask}" if mask else "") + f" fault={fault}")
+
+
+def masks_for(T, rng, kind):
+    """Which threads allocate in their timed section, per round (cycling): '1' = allocates."""
+    if kind == "last":
+        return "0" * (T - 1) + "1"
+    if kind == "not0":
+        return "0" + "1" * (T - 1)
+    if kind == "none":
+        return "0" * T
+    if kind == "first":
+        return "1" + "0" * (T - 1)
+    if kind == "rand":
+        return "".join(rng.choice("01") for _ in range(T))
+    # a different random subset in each of up to three rounds
+    return ",".join("".join(rng.choice("01") for _ in range(T)) for _ in range(rng.choice([2, 3])))
 
 
 def corpus_cases():
@@ -95,6 +113,9 @@ def hist_of(cases):
     h = {}
     for c in cases:
         d = kvs(c)
+        m = d.get("mask")
+        k = "mask=" + ("all" if not m else "per-round" if "," in m else "none" if "1" not in m else "subset")
+        h[k] = h.get(k, 0) + 1
         for key in ("T", "n", "sh", "path", "jit", "R"):
             k = f"{key}={d.get(key)}"
             h[k] = h.get(k, 0) + 1
@@ -120,6 +141,12 @@ def streams(tier, rng):
                 S = T * rng.choice([1, 2])
                 run.append(case_line(T, S, n, sh, path, rng.getrandbits(32), jit, slow=rng.randrange(T),
                                      skipext=rng.randrange(2)))
+    # allocation masks: any subset of the threads allocates in its timed section, over several rounds
+    for T in (2, 3, 4, 8):
+        for kind in ("last", "not0", "none", "first", "rand", "perround"):
+            sh, path = rng.choice(SHAPES)
+            run.append(case_line(T, T * rng.choice([2, 3]), rng.choice([1, 2]), sh, path, rng.getrandbits(32),
+                                 rng.choice([0, 1]), skipext=rng.randrange(2), mask=masks_for(T, rng, kind)))
     for T in (2, 3, 8):   # Action::Test goes through the same barrier protocol
         for sh, path in SHAPES[1::2]:
             run.append(case_line(T, 2 * T, 3, sh, path, rng.getrandbits(32), rng.choice([1, 2, 3, 4]), slow=rng.randrange(T), test=1))
@@ -129,7 +156,9 @@ def streams(tier, rng):
         n = rng.choice([1, 1, 2, 3, 4])
         S = rng.choice([1, T, T, 2 * T, 2 * T + 1, 3 * T])
         jit = rng.choice([0, 1, 1, 1, 2, 3, 4])
-        run.append(case_line(T, S, n, sh, path, rng.getrandbits(32), jit, slow=rng.randrange(T), skipext=rng.randrange(2)))
+        mask = masks_for(T, rng, rng.choice(["last", "not0", "none", "rand", "perround"])) if rng.random() < 0.3 else ""
+        run.append(case_line(T, S, n, sh, path, rng.getrandbits(32), jit, slow=rng.randrange(T), skipext=rng.randrange(2),
+                             mask=mask))
 
     # ---- panic injection -----------------------------------------------------
     for T in (2, 3):
@@ -226,7 +255,7 @@ def post(tier, rng, api):
 
 
 MANIFEST = {
-    "text": "Coq theorems over a transition system with any number of threads T >= 2 (phase order; T >= 1 for the rest), any number of rounds and sample sizes, any interleaving and any fault set: an inductive invariant ties every thread's program position and guard counter to the barrier generation (count = number of threads blocked in the current generation; a thread is at most one wait behind), from which follow the phase order (start timestamp only after every thread generated and cleared or has panicked; snapshot/drops only after every thread took its end timestamp or has panicked), non-overlap of untimed work with timed sections, deadlock freedom, a strictly decreasing measure (every execution is finite) and the outcome of every maximal execution as a function of the fault set (caller panics for the least faulting thread of the first faulty round, returns normally iff no fault is in range); each returned sample holds exactly its own thread's operations between its clear and its snapshot; the pre-fix protocol (no guard) deadlocks for T = 2 (F5). The model is tied to the code by replaying the global event log of real multi-threaded runs (jittered schedules, panic injection at every thread/phase under a watchdog) through the extracted step function, by the boolean phase-order specification evaluated on the observed global order, by per-sample allocation info under AllocProfiler, and by an exhaustive exploration of the extracted system for T in {2,3}.",
+    "text": "Coq theorems over a transition system with any number of threads T >= 2 (phase order; T >= 1 for the rest), any number of rounds and sample sizes, any interleaving and any fault set: an inductive invariant ties every thread's program position and guard counter to the barrier generation (count = number of threads blocked in the current generation; a thread is at most one wait behind), from which follow the phase order (start timestamp only after every thread generated and cleared or has panicked; snapshot/drops only after every thread took its end timestamp or has panicked), non-overlap of untimed work with timed sections, deadlock freedom, a strictly decreasing measure (every execution is finite) and the outcome of every maximal execution as a function of the fault set (caller panics for the least faulting thread of the first faulty round, returns normally iff no fault is in range); each returned sample holds exactly its own thread's operations between its clear and its snapshot; the caller's bookkeeping stores thread t's tally of round r under sample index r*T+t and nothing for an empty tally (C08_sample_index); the pre-fix protocol (no guard) deadlocks for T = 2 (F5). The model is tied to the code by replaying the global event log of real multi-threaded runs (jittered schedules, panic injection at every thread/phase under a watchdog) through the extracted step function, by the boolean phase-order specification evaluated on the observed global order, by per-sample allocation info under AllocProfiler, and by an exhaustive exploration of the extracted system for T in {2,3}.",
     "note": "Trusted: Coq kernel, extraction, OCaml driver, hooks H1-H4 and harness hx-round; std::sync::Barrier's documented semantics and the pool's fork/join contract (C06/C07) are assumptions of the model; ThreadAllocInfo::current() is assumed Some on every benchmark thread; number of rounds and sample sizes are model inputs (C03/C04/C19); real schedules are sampled, the theorems cover all of them.",
     "technique": "machine-checked proof in Coq (inductive invariant of a labelled transition system, unbounded thread count; lia) + trace replay of real-thread event logs through the extracted step function + exhaustive exploration of small instances + panic injection under a watchdog",
 }
